@@ -1,0 +1,45 @@
+//go:build verif
+
+package marshal
+
+// Contracts for govc (/verif). Comment-only file: no executable code, not part of the default build.
+// C18: the optional size check of the interceptors' decoder (NewSizeCheckUnmarshalizer, SizeCheckDelta).
+
+/*@
+// encoded size of the object an interface value designates, at the time the size check looks at it (after decoding):
+// what Sizer.Size() returns / the length of what Marshal returns. Uninterpreted.
+spec fn encSize(obj interface{}) int
+// the canonical encoding of the decoded object (what Marshal(obj) would return). Uninterpreted; its length is encSize.
+spec fn canon(obj interface{}) string
+
+// the decoder writes the object obj designates and nothing else; that object is abstracted here by encSize / canon
+// (this function never reads its fields), hence the empty frame
+func (m marshal.Marshalizer) Unmarshal(obj interface{}, buff []byte) (err error)
+  assigns nothing
+
+func (m marshal.Marshalizer) Marshal(obj interface{}) (r []byte, err error)
+  ensures length-is-encoded-size: err == nil ==> len(r) == encSize(obj)
+  assigns nothing
+
+func (s marshal.Sizer) Size() (n int)
+  ensures size-is-encoded-size: n == encSize(iface(s))
+  assigns nothing
+
+// P-contract of the size check: a buffer is accepted only if it is at most delta percent longer than the re-encoding of what
+// was decoded from it. It bounds the LENGTH only: with delta == 0 every encoding of the same length as the canonical one
+// passes (see lemma size-check-accepts-only-canonical, finding F18).
+func (scu *sizeCheckUnmarshalizer) Unmarshal(obj interface{}, buff []byte) (err error)
+  requires inner-marshalizer-set: scu.Marshalizer != nil
+  requires encoded-size-below-2GiB: 0 <= encSize(obj) && encSize(obj) <= 2147483647     // objSize*int(delta) then cannot wrap (int is 64 bit)
+  ensures  length-bound: err == nil ==> len(buff) <= encSize(obj) + encSize(obj)*int(scu.acceptedDelta)/100
+  ensures  delta-zero-bounds-length-only: err == nil && scu.acceptedDelta == 0 ==> len(buff) <= encSize(obj)
+
+// EXPECTED TO FAIL (finding F18): acceptance by the size-checking decoder does not make the received bytes the canonical
+// encoding of the decoded object, not even with delta 0 and equal length.
+lemma size-check-accepts-only-canonical
+  vars scu *sizeCheckUnmarshalizer, obj interface{}, buff []byte
+  hyp  scu.Marshalizer != nil && scu.acceptedDelta == 0
+  hyp  0 <= encSize(obj) && encSize(obj) <= 2147483647 && len(canon(obj)) == encSize(obj)
+  call err = scu.Unmarshal(obj, buff)
+  concl canonical: err == nil ==> str(buff) == canon(obj)
+@*/
